@@ -4,6 +4,7 @@ import (
 	"errors"
 	"fmt"
 	"io"
+	"sort"
 	"testing"
 
 	"github.com/parquet-go/parquet-go"
@@ -22,12 +23,25 @@ type AtCase struct {
 	Schema ref.Node    `json:"schema"`
 	Plan   gen.RowPlan `json:"plan"`
 	Reads  [][2]int    `json:"reads"` // (offset per mille of the column's values, count)
+	Keys   []int       `json:"keys,omitempty"` // a leading required key column holding this permutation; the buffer is sorted by it before the reads
+	Paged  bool        `json:"paged,omitempty"` // the pages of the columns are read once before ReadValuesAt
 }
 
 func genAtCase(t *rapid.T) AtCase {
 	var c AtCase
 	c.Schema = gen.Schema(t, gen.SchemaOpts{MaxDepth: 2, MaxLeaves: 4})
+	if rapid.Bool().Draw(t, "sorted") {
+		c.Schema.Children = append([]ref.Node{{Name: "akey", Rep: "req", Kind: "leaf", Leaf: "int64"}}, c.Schema.Children...)
+	}
 	c.Plan = gen.RowsAtLeast(t, &c.Schema, 6, 1, 80, gen.ValueOpts{Style: gen.SmallDom, Leaf: gen.Opts{MaxBytes: 8}})
+	if c.Schema.Children[0].Name == "akey" {
+		ids := make([]int, c.Plan.NumRows())
+		for i := range ids {
+			ids[i] = i
+		}
+		c.Keys = rapid.Permutation(ids).Draw(t, "keys")
+		c.Paged = rapid.Bool().Draw(t, "paged")
+	}
 	n := rapid.IntRange(1, 8).Draw(t, "nreads")
 	for i := 0; i < n; i++ {
 		c.Reads = append(c.Reads, [2]int{rapid.IntRange(0, 1000).Draw(t, "off"), []int{1, 2, 3, 7, 50, 500}[rapid.IntRange(0, 5).Draw(t, "n")]})
@@ -38,12 +52,40 @@ func genAtCase(t *rapid.T) AtCase {
 func runAtCase(c AtCase, o *kit.Obs) (fl *kit.Failure) {
 	cols := ref.Columns(&c.Schema)
 	rows := c.Plan.Expand()
-	streams := ref.ShredRows(&c.Schema, rows)
-	b := parquet.NewBuffer(pq.BuildSchema(&c.Schema))
+	var b *parquet.Buffer
+	if len(c.Keys) > 0 {
+		if len(c.Keys) != len(rows) {
+			return kit.Failf("harness/bad-case", "%d keys for %d rows", len(c.Keys), len(rows))
+		}
+		for i := range rows {
+			f := append([]ref.V{}, rows[i].F...)
+			f[0] = ref.V{I: int64(c.Keys[i])}
+			rows[i] = ref.V{F: f}
+		}
+		b = parquet.NewBuffer(pq.BuildSchema(&c.Schema), parquet.SortingRowGroupConfig(parquet.SortingColumns(parquet.Ascending("akey"))))
+	} else {
+		b = parquet.NewBuffer(pq.BuildSchema(&c.Schema))
+	}
 	if _, err := b.WriteRows(pq.Rows(&c.Schema, cols, rows)); err != nil {
 		o.Rejected()
 		return nil
 	}
+	if len(c.Keys) > 0 {
+		sort.Sort(b)
+		sorted := make([]ref.V, len(rows))
+		for i, k := range c.Keys {
+			sorted[k] = rows[i]
+		}
+		rows = sorted
+		o.Class("sorted")
+		if c.Paged {
+			for _, cb := range b.ColumnBuffers() {
+				cb.Page()
+			}
+			o.Class("sorted+paged")
+		}
+	}
+	streams := ref.ShredRows(&c.Schema, rows)
 	nulls := false
 	for ci, cb := range b.ColumnBuffers() {
 		want := streams[ci]
@@ -91,8 +133,8 @@ func runAtCase(c AtCase, o *kit.Obs) (fl *kit.Failure) {
 var atSpec = &kit.Spec[AtCase]{
 	Property: "C08",
 	Name:     "valuesat",
-	Rule: "a Buffer over a generated schema (required / optional / repeated leaves) filled with 1-80 rows; every ColumnBuffer is read with ReadValuesAt at generated value offsets and counts: " +
-		"values, definition and repetition levels equal the reference Dremel stream of the column from that offset; no panic. Non-trivial = a null was part of a compared window.",
+	Rule: "a Buffer over a generated schema (required / optional / repeated leaves) filled with 1-80 rows, in half of the cases sorted (sort.Sort) by a leading key column holding a generated permutation, the pages of the columns read once or not; every ColumnBuffer is read with ReadValuesAt at generated value offsets and counts: " +
+		"values, definition and repetition levels equal the reference Dremel stream of the column (of the rows in sorted order) from that offset; no panic. Non-trivial = a null was part of a compared window.",
 	Gen: genAtCase,
 	Run: runAtCase,
 }
